@@ -6,7 +6,7 @@ from common import enc_keys, enc_pos
 
 
 def gen_bounds(rng, nv):
-    mode = rng.choice(['unit', 'wide', 'narrow', 'degenerate', 'mixed', 'int', 'huge', 'offset', 'intlb', 'intub'])
+    mode = rng.choice(['unit', 'wide', 'narrow', 'degenerate', 'mixed', 'int', 'huge', 'offset', 'intlb', 'intub', 'frozen', 'frozen'])
     lb, ub = [], []
     for j in range(nv):
         if mode == 'unit':
@@ -23,6 +23,10 @@ def gen_bounds(rng, nv):
             l, u = -(j + 1), j + 2
         elif mode == 'huge':
             l, u = -1e12, 1e12
+        elif mode == 'frozen':
+            # every variable frozen (lb == ub) at a value that is not a short binary fraction: the draw must return
+            # exactly that value
+            l = u = rng.choice([1 / 3, 123.456, 4.35, 0.9, 1.7, 5.12, 1000.1, 0.01, -2.3, -0.7, 1e-5 / 3])
         elif mode == 'intlb':
             # integer lower bounds (an int list / int array), fractional upper bounds
             l = rng.randint(-4, 4); u = l + rng.choice([0.5, 2.5, 0.75])
@@ -175,6 +179,8 @@ def check(ctx):
         for k in range(reps):
             nv, nd, na = C.rng.randint(1, 4), C.rng.randint(1, 4), C.rng.randint(1, 6)
             mode, lb, ub = gen_bounds(C.rng, nv)
+            if mode == 'frozen':
+                na = 8
             kind = C.rng.choice(['search', 'hyper', 'tree'])
             np.random.seed(C.rng.randrange(1 << 30))
             rp = dict(how='build', kind=kind, n_agents=na, n_vars=nv, n_dims=nd, lb=list(lb), ub=list(ub))
